@@ -123,7 +123,8 @@ def run(tier):
             steps += observe_steps(names)
             nobs = len(observe_steps(names))
             if act["kind"] == "add":
-                steps.append({"op": "add", "tpls": batch_src(act["batch"])})
+                # the second history applies the call through add_template_files (same contract, other entry point)
+                steps.append(dict({"op": "add", "tpls": batch_src(act["batch"])}, **({"via": "files"} if mode == "steps" else {})))
             else:
                 steps.append({"op": "autoescape", "suffixes": sorted(act["s"])})
             steps += observe_steps(names)
@@ -138,7 +139,7 @@ def run(tier):
         else:
             post_set = pres
         sfx = sorted(act["s"]) if act["kind"] == "ae" else sorted(e["presfx"])
-        steps = ([{"op": "add", "tpls": batch_src(list(post_set.items()))}] if post_set else []) + [{"op": "autoescape", "suffixes": sfx}] + observe_steps(names)
+        steps = ([dict({"op": "add", "tpls": batch_src(list(post_set.items()))}, **({"via": "files"} if ei % 2 else {}))] if post_set else []) + [{"op": "autoescape", "suffixes": sfx}] + observe_steps(names)
         jobs.append({"cfg": base_cfg, "steps": steps})
         meta.append((ei, "fresh", 1 if post_set else 0, len(observe_steps(names))))
     res = vp.run_jobs(jobs, tag="c10", timeout=3000)
